@@ -215,9 +215,34 @@ def site_key(b, kind, t, ordinal):
     return "%s:%s#%d" % (fn.replace("memcrs::", ""), kind, ordinal)
 
 
-def trusted_reason(b, kind, descr_s):
+_PREMISE = {}
+
+
+def skip_discipline_holds(ctx):
+    """premise of the skip_bytes trusted entries: every read is capped by the bytes still to skip (C13.R3)"""
+    if "v" not in _PREMISE or _PREMISE.get("ctx") is not ctx:
+        from rules import c13
+
+        f = ctx.facts
+        path = CONN + "::skip_bytes::{closure#0}"
+        sb = f.one(path)
+        I = Interp(f, models=BUF_MODELS, loop_bound=2)
+
+        def seeds(st):
+            assume(st, {P("bytes"): 1}, lo=0, hi=2**32 - 1)
+
+        paths = I.run(sb, [ClosureV(path, [P("self"), P("bytes")], "coroutine"), P("cx")], seeds=seeds)
+        disc = c13.skip_capacity_discipline(I, list(paths) + list(I.panic_paths))
+        _PREMISE["v"] = bool(disc) and all(ok for ok, _w, _s in disc.values())
+        _PREMISE["ctx"] = ctx
+    return _PREMISE["v"]
+
+
+def trusted_reason(b, kind, descr_s, ctx=None):
     for (fn_suffix, k, frag), why in TRUSTED.items():
         if b.path.endswith(fn_suffix) and kind == k and frag in descr_s and why != "n/a":
+            if fn_suffix.startswith("skip_bytes") and ctx is not None and not skip_discipline_holds(ctx):
+                return None  # the premise of the assumption is checked, and it does not hold
             return why
     return None
 
@@ -251,20 +276,20 @@ def r1(ctx):
             rep.ok(key, "constant operands (folded)", loc)
             continue
         if not sts:
-            why = trusted_reason(b, kind, operand_names(b, t))
+            why = trusted_reason(b, kind, operand_names(b, t), ctx)
             if why:
                 rep.ok(key, "trusted: " + why, loc)
             else:
                 rep.bad(key, "panic-capable site (%s %s) in the request path was not reached by the analysis: it is not assumed safe" % (kind, operand_names(b, t)), loc)
             continue
         if "panics" in sts:
-            why = trusted_reason(b, kind, operand_names(b, t) + ds)
+            why = trusted_reason(b, kind, operand_names(b, t) + ds, ctx)
             if why and sts <= {"panics", "safe"} and kind == "explicit-panic":
                 rep.ok(key, "trusted: " + why, loc)
                 continue
             rep.bad(key, "client input can make the server panic here: %s (%s) fails on a feasible path" % (kind, ds or operand_names(b, t)), loc)
         elif "unknown" in sts:
-            why = trusted_reason(b, kind, operand_names(b, t) + ds)
+            why = trusted_reason(b, kind, operand_names(b, t) + ds, ctx)
             if why:
                 rep.ok(key, "trusted: " + why, loc)
             else:
